@@ -124,7 +124,14 @@ def prov2(ctx, pid):
 def _bit_names(f, testnode):
     """(name of the moving bit variable, names assigned in the arms of the `if path & bit`) found from the
     syntax around the tested expression, so that the rule does not depend on what the locals are called."""
-    ops = [n.id for n in ast.walk(testnode) if isinstance(n, ast.Name)]
+    src = testnode
+    if isinstance(testnode, ast.Name):
+        # `hit = path & bit; if hit:` - the tested local is the bit test
+        for n in walk_shallow(f.node):
+            if isinstance(n, ast.Assign) and len(n.targets) == 1 and isinstance(n.targets[0], ast.Name) and n.targets[0].id == testnode.id \
+                    and isinstance(n.value, ast.BinOp) and isinstance(n.value.op, ast.BitAnd):
+                src = n.value
+    ops = [n.id for n in ast.walk(src) if isinstance(n, ast.Name)]
     bitvar = None
     for n in walk_shallow(f.node):
         if isinstance(n, ast.AugAssign) and isinstance(n.target, ast.Name) and n.target.id in ops and isinstance(n.op, (ast.LShift, ast.RShift)):
